@@ -67,6 +67,13 @@ func runC13(c *Ctx) {
 				}
 				writers[name] = true
 				_, ok := allowed[name]
+				if !ok {
+					if owner, isHelper := c.P.HelperOf(fn, func(n string) bool { _, a := allowed[n]; return a }); isHelper {
+						writers[owner] = true
+						c.OK("pow-writers", owner+":helper:"+f, c.P.Pos(st.Pos()), name+" is called only from the allowed writer "+owner)
+						continue
+					}
+				}
 				c.Check(ok, "pow-writers", name+":"+f, c.P.Pos(st.Pos()), ifElse(ok, "allowed writer: "+allowed[name], name+" writes State."+f+": proof-of-work state must advance only through ApplyHeader, otherwise applying headers and applying full blocks diverge"))
 			}
 		}
